@@ -314,6 +314,9 @@ func c20Exec(run *ev.Run, c ev.Case) {
 					if got, consumed, err := dec.Decode(exactCopy(b[:len(b)-1]), n); err != nil || got != want || consumed != (n+1)/2 {
 						viol("bcdplus-at-end-of-data", fmt.Sprintf("BCD-plus %d chars from exactly % x: got %q consumed %d err %v, want %q", n, b[:len(b)-1], got, consumed, err, want), nil)
 					}
+					if nib == 0 || pos == n-1 {
+						c20Record(viol, 1, n, b[:len(b)-1], want)
+					}
 				}
 			}
 		}
@@ -357,6 +360,9 @@ func c20Exec(run *ev.Run, c ev.Case) {
 					}
 					if got, consumed, err := dec.Decode(exactCopy(b[:len(b)-1]), n); err != nil || got != want || consumed != nbytes {
 						viol("sixbit-at-end-of-data", fmt.Sprintf("6-bit packed %d chars from exactly % x: got %q consumed %d err %v, want %q", n, b[:len(b)-1], got, consumed, err, want), nil)
+					}
+					if code == 0 || pos == n-1 {
+						c20Record(viol, 2, n, b[:len(b)-1], want)
 					}
 				}
 			}
@@ -512,5 +518,19 @@ func c20Exec(run *ev.Run, c ev.Case) {
 				viol("entity-instance-string", fmt.Sprintf("instance %#x renders as %q, want number %d of the %s-relative class", v, str, wantNum, wantClass), nil)
 			}
 		}
+	}
+}
+
+// c20Record decodes the ID string where it lives: at the end of a Full Sensor
+// Record that ends with it (type/length byte, then exactly the string's bytes).
+func c20Record(viol func(string, string, any), enc byte, chars int, idBytes []byte, want string) {
+	rec := make([]byte, 43, 43+len(idBytes))
+	rec[42] = enc<<6 | byte(chars)
+	rec = append(rec, idBytes...)
+	var fsr ipmi.FullSensorRecord
+	var err error
+	pv, _ := safe(func() { err = fsr.DecodeFromBytes(exactCopy(rec), gopacket.NilDecodeFeedback) })
+	if pv != nil || err != nil || fsr.Identity != want {
+		viol("id-string-in-record", fmt.Sprintf("Full Sensor Record ending with a %d-character ID string (encoding %d, bytes % x): Identity %q err %v panic %v, want %q", chars, enc, idBytes, fsr.Identity, err, pv, want), nil)
 	}
 }
